@@ -196,6 +196,13 @@ def build_schematic(program, geom=None, style="dir"):
     import CircuitCalculator.SimpleCircuit.Elements as elm
     geom = geom or {}
     d = elm.Schematic(unit=geom.get("unit", 2))
+    return extend_schematic(d, program, geom, style)
+
+
+def extend_schematic(d, program, geom=None, style="dir"):
+    """add the items of a placement program to an existing Schematic (drawings are normally built incrementally)"""
+    import CircuitCalculator.SimpleCircuit.Elements as elm
+    geom = geom or {}
     prev_end = None
     for it in program:
         if it["op"] == "label":
